@@ -109,6 +109,20 @@ def logdec_specs(ctx):
             dec.append([a, b, c, d])
         sp["decades"] = dec
         sp["options"] = {"n_search": 32, "max_fun_evals": (D + 30) if sp["mode"] == "det" else 70}
+        if rng.random() < 0.5:
+            sp["x0_near"] = [rng.choice([0.0015, 0.002, 0.004, 0.01]) * rng.choice([1, 1, -1]) for _ in range(D)]
+        specs.append(sp)
+    # start points close to a hard bound combined with a coarse search grid: snapping the start point to the grid may carry it across the bound
+    combos = [(g, sgn, f) for g in (0, 1, 2, 4) for sgn in (-1, 1) for f in (0.002, 0.01, 0.03, 0.06)]
+    rng.shuffle(combos)
+    # the first ones systematically: coarse grids, both sides, distances from just outside the 0.1% margin to several percent of the range
+    combos = [(0, -1, 0.03), (0, -1, 0.06), (0, 1, 0.03), (1, -1, 0.002), (1, -1, 0.01), (0, -1, 0.01), (2, -1, 0.002), (1, 1, 0.03)] + combos
+    for g, sgn, f in combos[: (10 if ctx.quick else 40)]:
+        D = rng.choice([1, 2, 3])
+        sp = gen.make_spec(rng, D=D, geom="x0_near_bound", mode=rng.choice(["det", "det", "decl"]), opt_loc=rng.choice(["inside", "on_bound"]), cons=None,
+                           target=rng.choice(["quad", "abs"]))
+        sp["x0_near"] = [sgn * f] + [rng.choice([0.0, 0.002, 0.01, 0.03, 0.06]) * rng.choice([1, -1]) for _ in range(D - 1)]
+        sp["options"] = {"n_search": 32, "max_fun_evals": (D + 25) if sp["mode"] == "det" else 65, "search_grid_number": g}
         specs.append(sp)
     return specs
 
